@@ -158,6 +158,56 @@ def error_lines(chk, prog):
         chk.ob("R2.error_line", tb.path, "current_line is incremented once per line read", len(inc) == 1 and len(nx) == 1, f"{len(inc)} increments, {len(nx)} reads")
 
 
+def line_source(chk, prog):
+    """R2: the lines that are counted are the lines of the file as read: the text handed to `lines()` is the parameter / the buffer
+    filled by read_to_string, changed at most by appending (the closing `}` of an included file) — never trimmed, filtered or rebuilt,
+    which would shift every reported line number."""
+    n = 0
+    for pth, bb in sorted(prog.bodies.items()):
+        if not pth.startswith("humphrey_server::config::tree::"):
+            continue
+        for blk, t in bb.calls_to(r"<impl str>::lines$"):
+            n += 1
+            d = core.describe(prog, bb, t["args"][0])
+            calls = sorted(set(c[1] for c in core.desc_calls(d)))
+            odd = [c for c in calls if not core.re.search(r"(String::new|String::with_capacity|(::|>::)(deref|as_str|as_ref|borrow|clone|to_owned|to_string|into|from))$", c)]
+            src_ok = not odd and (calls or desc_contains(d, lambda y: y[0] == "param"))
+            chk.ob("R2.line_source", pth, "lines() is taken over the text as read (parameter or read buffer, reference conversions only)", bool(src_ok),
+                   f"lines() receiver = {panics.short_desc(d)}; transformations: {[core.short(c) for c in odd]}: reported line numbers no longer refer to the file's own lines",
+                   where=bb.where(blk))
+            # in-place edits of the buffer: append only
+            root = core.op_local(t["args"][0])
+            seen = set()
+            while root is not None and root not in seen:
+                seen.add(root)
+                ds = bb.defs().get(root, [])
+                if len(ds) == 1 and ds[0][2] == "assign" and ds[0][3]["rv"]["k"] in ("ref", "use", "cast"):
+                    rv = ds[0][3]["rv"]
+                    root = rv["pl"]["l"] if rv["k"] == "ref" else core.op_local(rv["o"])
+                elif len(ds) == 1 and ds[0][2] == "call" and core.re.search(r"(deref|as_str|as_ref|borrow)$", ds[0][3]["callee"]):
+                    root = core.op_local(ds[0][3]["args"][0])
+                else:
+                    break
+            edits = []
+            for b2, t2 in bb.calls():
+                for a, ty in zip(t2["args"], t2.get("arg_tys") or []):
+                    if ty.startswith("&mut std::string::String") and root is not None:
+                        r2 = core.op_local(a)
+                        s2 = set()
+                        while r2 is not None and r2 not in s2:
+                            s2.add(r2)
+                            ds = bb.defs().get(r2, [])
+                            if len(ds) == 1 and ds[0][2] == "assign" and ds[0][3]["rv"]["k"] == "ref":
+                                r2 = ds[0][3]["rv"]["pl"]["l"]
+                            else:
+                                break
+                        if r2 == root:
+                            edits.append(t2["callee"])
+            bad = [e for e in edits if not core.re.search(r"(read_to_string|String::push_str|String::push)$", e)]
+            chk.ob("R2.line_source", pth, "the read buffer is only appended to before it is split into lines", not bad, f"in-place edits: {[core.short(e) for e in edits]}", where=bb.where(blk))
+    chk.floor("lines() sites in the config tree parser", n, 2)
+
+
 def ordering(chk, prog):
     """R3: hosts / routes are collected by iterating Vecs in file order, never a HashMap."""
     HM = r"collections::HashMap::<K, V, S(, A)?>::(iter|iter_mut|keys|values|values_mut|into_iter|drain|into_keys|into_values)$|hash_map::.*IntoIterator"
@@ -272,6 +322,7 @@ def run(chk):
     enum_tables(chk, prog)
     route_kinds(chk, prog)
     error_lines(chk, prog)
+    line_source(chk, prog)
     ordering(chk, prog)
     quoted_values(chk, prog)
     defaults(chk, prog)
